@@ -632,6 +632,15 @@ impl FuChecker {
                 v.push(pos(B, 0, 99_000, DAY));
                 v.push(FuOp::Advance { secs: 10 * DAY });
             }
+            "F20" => {
+                // A already holds ten open positions (all on lp1); B stakes lp0; a farm runs on lp0
+                for _ in 0..10 {
+                    v.push(pos(A, 1, 10, DAY));
+                }
+                v.push(pos(B, 0, 5000, DAY));
+                v.push(farm_op(fee, C, 0, Some(1), Some(6), ("uusdc", 5000), Some("t")));
+                v.push(FuOp::Advance { secs: DAY });
+            }
             "F12" => {
                 // the LP token is at its limit of concurrent farms (2) and every farm ever created had an explicit identifier
                 v.push(pos(A, 0, 1000, DAY));
@@ -719,6 +728,10 @@ pub fn enabled(c: &FuChecker, w: &World, pre: &FuObs, g: &FuGhost) -> Vec<FuOp> 
                     }
                 }
             }
+            if matches!(a, FAlpha::Full | FAlpha::Reward) && !pre.positions.iter().any(|p| p.identifier == "u-zz") {
+                // a new, named position created through the pool manager (its identifier sorts after every generated one)
+                ops.push(FuOp::ProvideLock { u, lp: 0, amount: 5000, dur: DAY, lock_id: Some("zz".into()) });
+            }
             if a == FAlpha::Full {
                 // explicit identifiers chosen to collide, create-for-other, via pool manager
                 ops.push(FuOp::CreatePos { u, lp: 0, amount: 1000, dur: DAY, id: Some("1".into()), recv: None });
@@ -760,6 +773,8 @@ pub fn enabled(c: &FuChecker, w: &World, pre: &FuObs, g: &FuGhost) -> Vec<FuOp> 
                         ops.push(FuOp::ClosePos { u, id: p.identifier.clone(), partial: Some((li, amt + 1)) });
                     }
                 } else if matches!(a, FAlpha::Full | FAlpha::Positions) {
+                    // a locked deposit through the pool manager naming the closed position
+                    ops.push(FuOp::ProvideLock { u, lp: li, amount: 5000, dur: p.unlocking_duration, lock_id: Some(p.identifier.clone()) });
                     // closing / topping up a position that is already closed (whole, by its exact amount, one unit of it)
                     ops.push(FuOp::ClosePos { u, id: p.identifier.clone(), partial: None });
                     ops.push(FuOp::ClosePos { u, id: p.identifier.clone(), partial: Some((li, amt)) });
@@ -896,6 +911,12 @@ pub fn enabled(c: &FuChecker, w: &World, pre: &FuObs, g: &FuGhost) -> Vec<FuOp> 
                 let mut extra = funds.clone();
                 extra.push(("uweth".into(), 777));
                 ops.push(mk(extra));
+                if fee.1 == 0 && fee.0 != reward.0 {
+                    // no fee is charged, yet a coin in the fee's denom is attached (a client still paying the old fee)
+                    let mut stale = funds.clone();
+                    stale.push((fee.0.clone(), 1000));
+                    ops.push(mk(stale));
+                }
                 let mut less = funds.clone();
                 for f in less.iter_mut() {
                     if f.0 == reward.0 {
@@ -949,6 +970,7 @@ pub fn enabled(c: &FuChecker, w: &World, pre: &FuObs, g: &FuGhost) -> Vec<FuOp> 
             if cf.max_farm_epoch_buffer > 2 {
                 ops.push(FuOp::SetCfg { u: OWNER, field: "epoch_buffer".into(), val: 2 });
                 ops.push(FuOp::SetCfg { u: OWNER, field: "epoch_buffer".into(), val: 1 });
+                ops.push(FuOp::SetCfg { u: OWNER, field: "epoch_buffer".into(), val: 0 });
             }
             if cf.min_unlocking_duration == DAY {
                 ops.push(FuOp::SetCfg { u: OWNER, field: "min_unlock".into(), val: 2 * DAY });
